@@ -2,7 +2,7 @@
 from .. import traceprop
 
 ID = "C10"
-GEN = ["LockDiscipline.lean", "PubSubCalls.lean"]   # lock discipline of pubsub.go regenerated from the source (tie 4B)
+GEN = ["LockDiscipline.lean", "PubSubCalls.lean", "ChanShapes.lean"]   # lock discipline of pubsub.go regenerated from the source (tie 4B)
 SHRINK = False
 RULE = ("random scenarios, each in its own subprocess (GOMAXPROCS 1/2/8): 0-3 subscribers with buffers -1(default)/0/1/2, timeouts off or 2 ms, 3-8 actions drawn from the six publish "
         "variants (1-2 events, distinct values), gated receivers (allow c n), Unsub/UnsubAll (also of unknown and nil channels), Sub during traffic, WithOnly clones; all calls run in "
